@@ -799,6 +799,23 @@ def directed_programs():
             for tn, t in tsts[:3]:
                 th, el = then_else(15)
                 mk('E_%s_%s_%s' % (reg, mn, tn), [asg(V(reg), V('a')), mid, ('if', t(V(reg)), th, el)], hw=True)
+    # G. an instruction whose only effect on what follows is N and Z: a reload after a store, OR with 0
+    loop = ('for', ('asg', '=', V('i'), N(1)), ('bin', '!=', V('i'), N(0)), ('inc', '--x', V('i')), ('block', [asg(V('b'), V('a'))]))
+    for tn, t in tsts:
+        th, el = then_else(20)
+        mk('G_store_%s' % tn, [loop, ('store', V('d')), ('if', t(V('d')), th, el)], hw=True)
+        mk('G_storesw_%s' % tn, [loop, ('store', V('d')), ('switch', V('d'), [([0], [asg(V('c'), N(20)), ('break',)]), ([5], [asg(V('c'), N(21)), ('break',)])], None)], hw=True)
+        for reg in ('X', 'Y'):
+            mk('G_chain_%s_%s' % (reg, tn), [asg(V('i'), N(1)), ('expr', ('inc', 'x++', V(reg))), asg(V('j'), N(1)), asg(V('i'), V('j')),
+                                             ('if', t(V('i')), th, el)])
+            mk('G_chain0_%s_%s' % (reg, tn), [asg(V('i'), N(0)), ('expr', ('inc', 'x--', V(reg))), asg(V('j'), N(0)), asg(V('i'), V('j')),
+                                              ('if', t(V('i')), th, el)])
+    cntf = [dict(name='cnt', ret='unsigned char', params=[], inline=False, body=[('return', ('inc', 'x++', V('g')))])]
+    for on, e in (('|0', ('bin', '|', ('call', 'cnt', []), N(0))), ('0|', ('bin', '|', N(0), ('call', 'cnt', []))), ('+0', ('bin', '+', ('call', 'cnt', []), N(0))),
+                  ('^0', ('bin', '^', ('call', 'cnt', []), N(0))), ('&255', ('bin', '&', ('call', 'cnt', []), N(255)))):
+        for tn, t in tsts[:3]:
+            th, el = then_else(22)
+            mk('G_call%s_%s' % (on, tn), [('if', t(e), th, el)], cntf)
     # F. ++/-- of a 16-bit variable as an operand
     for iname in ('++x', '--x', 'x++', 'x--'):
         inc = ('inc', iname, V('s'))
